@@ -1,0 +1,18 @@
+//go:build verif
+
+// Package verifhook provides yield points for verification harnesses.
+package verifhook
+
+import "sync/atomic"
+
+var hook atomic.Value // *func(string)
+
+// Set installs (or with nil removes) the hook.
+func Set(f func(point string)) { hook.Store(&f) }
+
+// Yield calls the installed hook, if any.
+func Yield(point string) {
+	if p, _ := hook.Load().(*func(string)); p != nil && *p != nil {
+		(*p)(point)
+	}
+}
